@@ -25,7 +25,9 @@ Inductive pname :=
   | pY | pZ | pIsc | pVoc | pArg0 | pArg1 | pAlpha | pEps
   | pA11 | pA12 | pA21 | pA22 | pY11 | pY12 | pY21 | pY22
   | pZM0 | pZM1   (* mutual impedance, opaque (contains sqrt): K stamp, s-like kinds / other kinds *)
-  | pZL1 | pZL2 | pK.
+  | pZL1 | pZL2 | pK
+  | pZM2          (* mutual inductance M = k sqrt(L1 L2), opaque (contains sqrt): K stamp, initial-value analysis *)
+  | pI01 | pI02.  (* initial currents of the two coupled inductors (0 when none is specified) *)
 
 (* ---- the context a stamp runs in ---------------------------------------- *)
 Record sctx (K : fld) := SCtx {
@@ -164,9 +166,11 @@ Definition brel_CCVS (c : sctx K) (v ib : Z -> K) q := fadd
 Definition ZM (c : sctx K) : K := if akind_eqb (kind c) KS || akind_eqb (kind c) KIvp || akind_eqb (kind c) KLaplace
                      then par c pZM0 else par c pZM1.
 Definition drawn_K (c : sctx K) (v ib : Z -> K) (r : Z) : K := f0.
+(* in an initial-value analysis V1 = L1 (s I1 - i01) + M (s I2 - i02): the partner's initial current enters too *)
+Definition MI (c : sctx K) (i0 : pname) : K := if akind_eqb (kind c) KIvp then fmul (par c pZM2) (par c i0) else f0.
 Definition brel_K (c : sctx K) (v ib : Z -> K) q := if akind_eqb (kind c) KDc then f0 else
-   fadd (fmul (ind (bL1 c) q) (fopp (fmul (ZM c) (ib (bL2 c)))))
-        (fmul (ind (bL2 c) q) (fopp (fmul (ZM c) (ib (bL1 c))))).
+   fadd (fmul (ind (bL1 c) q) (fadd (fopp (fmul (ZM c) (ib (bL2 c)))) (MI c pI02)))
+        (fmul (ind (bL2 c) q) (fadd (fopp (fmul (ZM c) (ib (bL1 c)))) (MI c pI01))).
 (* ideal transformer: v+ - v- = a (vc+ - vc-); i_T drawn at +, -a i_T at c+ *)
 Definition drawn_TF (c : sctx K) (v ib : Z -> K) r := fadd (thru (p0 c) (p1 c) r (ib (bown c)))
                               (thru (p2 c) (p3 c) r (fopp (fmul (par c pAlpha) (ib (bown c))))).
